@@ -155,3 +155,66 @@ Proof.
   intros Hwf Hb Hm1. destruct (band_solve_total_lemma FL B b Hwf Hb Hm1) as [(x & E)|H]; [left|now right].
   exists x. split; auto. now apply (band_solve_sound_lemma FL B b x).
 Qed.
+
+(* ---- on a nonsingular band the solution does not depend on padding ---- *)
+Section Unique.
+Context {A : Arith}.
+Notation T := (T A).
+Notation banded := (banded A).
+Variable FL : FieldLaws A.
+Variable PL : PivotLaws A.
+Add Field AFld4 : (fl_field A FL).
+
+Lemma sum_n_sub n (f g : nat -> T) :
+  sum_n n (fun u => sub (f u) (g u)) = sub (sum_n n f) (sum_n n g).
+Proof. induction n as [|n IH]; cbn; [ring|]. rewrite IH. ring. Qed.
+
+Lemma dense_mulv_same (B B' : banded) (x : list T) :
+  same_in_matrix_slots B B' -> dense_mulv B' x = dense_mulv B x.
+Proof.
+  intros HS. pose proof HS as (_ & Hn & _). unfold dense_mulv. rewrite Hn.
+  apply map_ext_in. intros i Hi. apply in_seq in Hi.
+  apply sum_n_ext. intros j Hj. now rewrite (dense_entry_same B B') by (auto; lia).
+Qed.
+
+Lemma solution_unique (B : banded) (b x x' : list T) :
+  trivial_kernel B -> length x = bn B -> length x' = bn B ->
+  dense_mulv B x = b -> dense_mulv B x' = b -> x = x'.
+Proof.
+  intros Hker Hx Hx' H H'. set (n := bn B) in *.
+  set (z := map (fun j => sub (nth j x zero) (nth j x' zero)) (seq 0 n)).
+  assert (Hz : z = repeat zero n).
+  { apply Hker; [unfold z; now rewrite map_length, seq_length|].
+    apply (nth_ext _ _ zero zero).
+    - unfold dense_mulv. now rewrite map_length, seq_length, repeat_length.
+    - unfold dense_mulv. rewrite map_length, seq_length. fold n. intros i Hi.
+      rewrite nth_map_seq by auto. rewrite nth_repeat.
+      rewrite (sum_n_ext n _ (fun j => sub (mul (dense_entry B i j) (nth j x zero))
+                                           (mul (dense_entry B i j) (nth j x' zero)))).
+      2:{ intros j Hj. unfold z. rewrite nth_map_seq by auto. ring. }
+      rewrite sum_n_sub.
+      assert (E : forall v, dense_mulv B v = b -> sum_n n (fun j => mul (dense_entry B i j) (nth j v zero)) = nth i b zero).
+      { intros v Hv. rewrite <- Hv. unfold dense_mulv. fold n. now rewrite nth_map_seq by auto. }
+      rewrite (E x H), (E x' H'). ring. }
+  apply (nth_ext _ _ zero zero); [congruence|].
+  intros j Hj. rewrite Hx in Hj.
+  assert (Hzj : nth j z zero = zero) by (rewrite Hz; apply nth_repeat).
+  unfold z in Hzj. rewrite nth_map_seq in Hzj by auto.
+  transitivity (add (sub (nth j x zero) (nth j x' zero)) (nth j x' zero)); [ring|]. rewrite Hzj. ring.
+Qed.
+
+Lemma band_solve_padding_lemma (B : banded) (b : list T) :
+  wfB B -> length b = bn B -> bm1 B <= bn B -> trivial_kernel B ->
+  forall B', same_in_matrix_slots B B' -> band_solve B' b = band_solve B b.
+Proof.
+  intros Hwf Hb Hm1 Hker B' HS. pose proof HS as (Hwf' & Hn & H1 & H2 & _).
+  assert (Hker' : trivial_kernel B').
+  { intros x Hx Hx0. rewrite Hn in *. apply Hker; auto. now rewrite <- (dense_mulv_same B B'). }
+  destruct (band_solve_complete_lemma FL PL B b Hwf Hb Hm1 Hker) as (x & E & Hxl & Hx).
+  destruct (band_solve_complete_lemma FL PL B' b Hwf') as (x' & E' & Hxl' & Hx'); auto; try congruence.
+  rewrite E, E'. f_equal. symmetry.
+  apply (solution_unique B b x x'); auto; try congruence.
+  now rewrite <- (dense_mulv_same B B').
+Qed.
+
+End Unique.
